@@ -20,6 +20,9 @@ fn menu(n: usize) -> Vec<(String, Vec<f32>)> {
             "mags".into(),
             (0..n).map(|i| 1e-3 * 10f32.powi((i % 7) as i32)).collect(),
         ),
+        // the ramp moved by a constant: every component differs from the ramp's by exactly the same amount
+        ("ramp+c".into(), (0..n).map(|i| (i as f32 + 1.0) * 0.25 + 0.5).collect()),
+        ("ramp-c".into(), (0..n).map(|i| (i as f32 + 1.0) * 0.25 - 2.0).collect()),
         (
             "neg-ramp".into(),
             (0..n).map(|i| -(((i * 7) % 11) as f32) - 0.5).collect(),
